@@ -1097,12 +1097,70 @@ def s_filename():
                      st.sampled_from(['/', '\\'])).map(lambda t: t[0] + t[2].join(t[1]) + '.vcd')
 
 
+def s_image_op():
+    return st.one_of(
+        st.tuples(st.just('rename'), st.integers(0, 7), s_filename()).map(list),
+        st.tuples(st.just('rename'), st.integers(0, 7), s_filename()).map(list),
+        st.tuples(st.just('replace'), st.integers(0, 7), st.integers(0, 7)).map(list),
+    )
+
+
+def apply_image_ops(ops, container, model, ents, ctx):
+    """Run a history on a container (ScenesImage dict or list of Entry) and on its model in step.
+
+    `model` is a list of {'filename', 'scene'} records in the container's iteration order.  Returns False if a scene could
+    not be built.  A rename that would collide with another entry's CRC is skipped (CRCs are the key of the format).
+    """
+    from srctools import choreo
+    n = len(model)
+    if n == 0:
+        return True
+    for op in ops:
+        pos = op[1] % n
+        keys = list(container) if isinstance(container, dict) else None
+        entry = container[keys[pos]] if keys is not None else container[pos]
+        if op[0] == 'rename':
+            new = op[2]
+            if any(crc_of(new) == crc_of(r['filename']) for r in model):
+                continue
+            entry.filename = new           # documented: recalculates entry.checksum
+            model[pos] = dict(model[pos], filename=new)
+            ctx.label('history:rename')
+            if keys is not None:
+                ctx.label('history:stale_dict_key')
+        else:
+            src = ents[op[2] % len(ents)]['scene']
+            scene = build_or_fail(src, ctx)
+            if scene is None:
+                return False
+            fresh = choreo.Entry.from_scene(model[pos]['filename'], scene)
+            if keys is not None:
+                container[keys[pos]] = fresh
+            else:
+                container[pos] = fresh
+            model[pos] = dict(model[pos], scene=src)
+            ctx.label('history:replace')
+    return True
+
+
+def save_container(container, version):
+    from srctools import choreo
+    buf = io.BytesIO()
+    choreo.save_scenes_image_sync(buf, container if isinstance(container, dict) else iter(container), version=version)
+    return buf.getvalue()
+
+
 def strategy_image(tier):
     entry = st.fixed_dictionaries({'filename': s_filename(), 'scene': s_scene('img')})
     return st.fixed_dictionaries({
         'version': st.sampled_from([2, 3]),
         'as_dict': st.booleans(),
-        'mode': st.sampled_from(['reexport', 'mixed', 'two_pools']),
+        'mode': st.sampled_from(['reexport', 'mixed', 'two_pools', 'history']),
+        # histories on the container between build / parse and save: ['rename', entry, new file name] through the
+        # documented Entry.filename setter (recomputes Entry.checksum; a dict key goes stale), ['replace', entry, scene of
+        # entry j]; pre_ops before the first save, post_ops (mode 'history') on the parsed image before saving it again
+        'pre_ops': st.one_of(st.just([]), st.lists(s_image_op(), max_size=3)),
+        'post_ops': st.lists(s_image_op(), min_size=1, max_size=3),
         # 2-5 scenes per container (0 and 1 are fixed cases): cross-scene pool collisions need company
         'entries': st.lists(entry, min_size=2, max_size=4, unique_by=lambda e: crc_of(e['filename'])),
     })
@@ -1198,11 +1256,16 @@ def exec_image(desc, ctx):
         if scene is None:
             return
         built.append(choreo.Entry.from_scene(e['filename'], scene))
-    by_crc = {crc_of(e['filename']): e for e in ents}
-    input_sorted = [crc_of(e['filename']) for e in ents] == sorted(by_crc)
+    container = {e.checksum: e for e in built} if desc['as_dict'] else list(built)
+    model = [{'filename': e['filename'], 'scene': e['scene']} for e in ents]
+    if not apply_image_ops(desc.get('pre_ops', []), container, model, ents, ctx):
+        return
+    built = list(container.values()) if desc['as_dict'] else list(container)
+    by_crc = {crc_of(r['filename']): r for r in model}
+    input_sorted = [crc_of(r['filename']) for r in model] == sorted(by_crc)
     ctx.label('input_sorted' if input_sorted else 'input_unsorted')
 
-    raw = save_image(built, version, desc['as_dict'])
+    raw = save_container(container, version)
 
     # ---- independent reading of the bytes
     img = read_image(raw)
@@ -1270,6 +1333,40 @@ def exec_image(desc, ctx):
         raw4 = save_image(list(again.values()), version)
         ctx.check(raw4 == raw3, 'image_fixed_point_reexport', 'third generation differs from the second')
         ctx.check(key(read_image(raw3)) == key(img), 'image_regen', 'regenerated file stores different directory/summary fields')
+        return
+    if mode == 'history':
+        # ---- a history on the parsed image (renames through Entry.filename, replacements), then the same dict (or its
+        #      entries) saved again: table sorted by checksum, same entries back, save(parse(.)) byte-identical
+        container2 = dict(parsed) if desc['as_dict'] else list(parsed.values())
+        model2 = [by_crc[crc] for crc in parsed]
+        if not apply_image_ops(desc['post_ops'], container2, model2, ents, ctx):
+            return
+        by_crc2 = {crc_of(r['filename']): r for r in model2}
+        raw_h = save_container(container2, version)
+        img_h = read_image(raw_h)
+        crcs_h = [e['crc'] for e in img_h['entries']]
+        ctx.check(crcs_h == sorted(by_crc2), 'image_sorted',
+                  f'history: directory CRCs {crcs_h} are not the sorted checksums of the entries {sorted(by_crc2)} '
+                  f'(ops {desc["post_ops"]!r}, container {"dict" if desc["as_dict"] else "iterable"})')
+        for ent in img_h['entries']:
+            r = by_crc2.get(ent['crc'])
+            if r is None:
+                continue
+            dur, speak, sounds = expected_summary(r['scene'])
+            ctx.check(ms_ok(ent['duration'], dur) and ent['sounds'] == sounds, 'image_history',
+                      f'history: {r["filename"]}: summary {ent["duration"]} ms {ent["sounds"]!r}, want {dur} s {sounds!r}')
+            sc, left = parse_binary(ent['data'], img_h['strings'])
+            diff = first_diff(to_binary_form(x_scene(r['scene'])), w_scene(sc))
+            ctx.check(diff is None and left == 0, 'image_history',
+                      f'history: scene {r["filename"]} differs: {diff} (unread {left})', diff=str(diff))
+        parsed_h = choreo.parse_scenes_image(io.BytesIO(raw_h))
+        ctx.check(list(parsed_h) == sorted(by_crc2), 'image_parse_keys',
+                  f'history: re-read keys {list(parsed_h)} want {sorted(by_crc2)}')
+        ctx.check([e.checksum for e in parsed_h.values()] == list(parsed_h), 'image_parse_keys',
+                  'history: re-read dict keys differ from the entries\' checksums')
+        raw_h2 = save_container(parsed_h, version)
+        ctx.check(raw_h2 == raw_h, 'image_fixed_point_copy',
+                  f'history: save(parse(save(x))) differs from save(x) ({len(raw_h)} vs {len(raw_h2)} bytes)')
         return
     # ---- merging: entries of an existing image (unparsed blocks + its pool) together with
     #      'mixed': freshly built scenes / 'two_pools': the entries of a second image (forces re-export of all)
@@ -1363,7 +1460,8 @@ SUBS = [
         must_hit=COMMON_HIT),
     Sub('choreo_image', exec_image_any, strategy=strategy_image, fixed=fixed_image, quick=112, thorough=2000, floor=40,
         quick_shards=16,
-        must_hit=('version:2', 'version:3', 'mode:reexport', 'mode:mixed', 'mode:two_pools', 'entries:2+', 'image:case_variant_strings_across_scenes', 'arg:dict', 'arg:iter', 'input_unsorted', 'ev:speak', 'lzma')),
+        must_hit=('version:2', 'version:3', 'mode:reexport', 'mode:mixed', 'mode:two_pools', 'mode:history', 'history:rename',
+                  'history:replace', 'history:stale_dict_key', 'entries:2+', 'image:case_variant_strings_across_scenes', 'arg:dict', 'arg:iter', 'input_unsorted', 'ev:speak', 'lzma')),
 ]
 
 
